@@ -56,6 +56,95 @@ def duration_ms(expr, what):
     return v * 1000 if m.group(1) == "secs" else v
 
 
+def brace_block(text, start):
+    """text[start] == '{' : return (inner, index after the matching '}')"""
+    assert text[start] == "{"
+    depth = 0
+    for i in range(start, len(text)):
+        if text[i] == "{":
+            depth += 1
+        elif text[i] == "}":
+            depth -= 1
+            if depth == 0:
+                return text[start + 1:i], i + 1
+    die("unbalanced braces")
+
+
+# statement codes of the connection-handler tables (Tie_handler.v interprets them)
+HSTMT = [
+    (r'self\.close_sink_on_error\("[^"]*"\)', 1),
+    (r"self\.change_sending_state\(SendingState::Failed\(self\.connection_id\)\)", 2),
+    (r"continue", 3),
+    (r"let_=sink\.poll_close_unpin\(cx\)", 4),
+    (r"self\.sink_state=SinkState::None", 5),
+    (r"self\.change_sending_state\(SendingState::Ready\)", 6),
+    (r'letmsg=msg\.take\(\)\.expect\("[^"]*"\)', 7),
+    (r"self\.msg=Some\(msg\)", 8),
+    (r"self\.start_sending_timeout=None", 9),
+    (r"self\.change_sending_state\(SendingState::Sending\(Instant::now\(\),self\.connection_id,?\)\)", 10),
+    (r"returnPoll::Pending", 11),
+    (r"returnself\.open_new_substream\(\)", 12),
+    (r"self\.start_sending_timeout\.take\(\)", 13),
+    (r"self\.msg\.take\(\)", 14),
+    (r"self\.halted=true", 15),
+    # server handler
+    (r'letmutmessages=pending_messages\.take\(\)\.expect\("[^"]*"\)', 30),
+    (r"letremaining=messages\.split_off\(blocks_fitting_in_message\(&messages\)\)", 31),
+    (r"\*pending_messages=Some\(remaining\)", 33),
+    (r"letmessage=Message\{payload:messages,\.\.Message::default\(\)\}", 34),
+]
+HCOND = [
+    (r"ready!\(sink\.poll_flush_unpin\(cx\)\)\.is_err\(\)", 20),
+    (r"ready!\(sink\.poll_ready_unpin\(cx\)\)\.is_err\(\)", 21),
+    (r"sink\.start_send_unpin\(&msg\)\.is_err\(\)", 22),
+    (r"delay\.poll_unpin\(cx\)\.is_ready\(\)", 23),
+    (r"!remaining\.is_empty\(\)", 24),
+    (r"sink\.start_send_unpin\(&message\)\.is_err\(\)", 25),
+]
+
+
+def hstmt_code(txt):
+    t = re.sub(r"\s+", "", txt)
+    for pat, code in HSTMT:
+        if re.fullmatch(pat, t):
+            return code
+    return 99
+
+
+def parse_hbody(body):
+    """a block body -> list of (kind, [codes]): kind 0 = one plain statement, kind 20.. = `if <cond> { stmts }` (no else)"""
+    items = []
+    i, n = 0, len(body)
+    while i < n:
+        while i < n and body[i].isspace():
+            i += 1
+        if i >= n:
+            break
+        if body.startswith("if", i) and not (body[i + 2].isalnum() or body[i + 2] == "_"):
+            j = body.index("{", i)
+            cond = re.sub(r"\s+", "", body[i + 2:j])
+            kind = 98
+            for pat, code in HCOND:
+                if re.fullmatch(pat, cond):
+                    kind = code
+            inner, k = brace_block(body, j)
+            sub = parse_hbody(inner)
+            if any(kk != 0 for kk, _ in sub):
+                kind = 98          # nested conditionals are not part of the table language
+            rest = body[k:].lstrip()
+            if rest.startswith("else"):
+                kind = 98
+            items.append((kind, [c for _, cs in sub for c in cs]))
+            i = k
+        else:
+            j = body.find(";", i)
+            if j < 0:
+                j = n
+            items.append((0, [hstmt_code(body[i:j])]))
+            i = j + 1
+    return items
+
+
 def coq_string(s):
     return "[" + "; ".join(str(b) for b in s.encode()) + "]"
 
@@ -382,6 +471,115 @@ def main():
     pflat = re.sub(r"\s+", "", pm.group(1))
     timer = 0 if "ifself.send_full_timer.poll_unpin(cx).is_ready(){forstateinself.peers.values_mut(){state.send_full=true;}self.send_full_timer.reset(SEND_FULL_INTERVAL);continue;}" in pflat else 9
     w(f"Definition refresh_timer_shape : N := {timer}.  (* 0 = when the interval timer fires every peer's send_full is set and the timer is re-armed *)")
+    w("")
+
+    # ---- client.rs : ClientConnectionHandler::poll — the timeout block and the arms of the match on (msg, sink_state)
+    hm = re.search(r"pub\(crate\)\s+fn\s+poll\s*\(&mut self,\s*cx:\s*&mut Context\)\s*->\s*Poll<ConnHandlerEvent<S>>\s*\{", cl)
+    if not hm:
+        die("ClientConnectionHandler::poll not found")
+    hbody, _ = brace_block(cl, hm.end() - 1)
+    lm = re.search(r"loop\s*\{", hbody)
+    if not lm:
+        die("ClientConnectionHandler::poll: loop not found")
+    loop_body, _ = brace_block(hbody, lm.end() - 1)
+    mm2 = re.search(r"match\s*\(&mut self\.msg,\s*&mut self\.sink_state\)\s*\{", loop_body)
+    if not mm2:
+        die("ClientConnectionHandler::poll: match on (msg, sink_state) not found")
+    arms_txt, arms_end = brace_block(loop_body, mm2.end() - 1)
+    if loop_body[arms_end:].strip() != "":
+        die("ClientConnectionHandler::poll: code after the match")
+    prelude = re.sub(r"\s+", "", loop_body[:mm2.start()])
+    pre_q = "ifletSome(ev)=self.queue.pop_front(){returnPoll::Ready(ConnectionHandlerEvent::NotifyBehaviour(ev));}"
+    pre_h = "ifself.halted{returnPoll::Pending;}"
+    pre_t = "ifletSome(delay)=&mutself.start_sending_timeout{"
+    if not (prelude.startswith(pre_q + pre_h + pre_t) and prelude.endswith("}")):
+        hprelude = 9
+        tmo = [(98, [])]
+    else:
+        hprelude = 0
+        tmo = parse_hbody(loop_body[loop_body.index("{", loop_body.index("if let Some(delay)")) + 1:loop_body.rindex("}", 0, mm2.start())])
+    mpat = {"None": 0, "Some(_)": 1, "msg@Some(_)": 1, "_": 9}
+    spat = {"SinkState::None": 0, "SinkState::Requested": 1, "SinkState::Ready(sink)": 2, "_": 9}
+    arms = []
+    i = 0
+    while True:
+        am2 = re.compile(r"\s*\(([^,()]*(?:\([^()]*\))?[^,()]*),\s*([^()]*(?:\([^()]*\))?)\)\s*=>\s*").match(arms_txt, i)
+        if not am2:
+            if arms_txt[i:].strip() != "":
+                die("ClientConnectionHandler::poll: cannot parse arm at: " + arms_txt[i:i + 60])
+            break
+        mp = mpat.get(re.sub(r"\s+", "", am2.group(1)), 99)
+        sp = spat.get(re.sub(r"\s+", "", am2.group(2)), 99)
+        j = am2.end()
+        if arms_txt[j] == "{":
+            inner, k = brace_block(arms_txt, j)
+            items = parse_hbody(inner)
+            i = k
+            if arms_txt[i:].lstrip().startswith(","):
+                i = arms_txt.index(",", i) + 1
+        else:
+            k = arms_txt.index(",", j)
+            items = [(0, [hstmt_code(arms_txt[j:k])])]
+            i = k + 1
+        arms.append((mp, sp, items))
+
+    def items_coq(items):
+        return "[" + "; ".join(f"({k}, [" + "; ".join(str(c) for c in cs) + "])" for k, cs in items) + "]"
+
+    w("(* ClientConnectionHandler::poll.  Statement codes: 1 close_sink_on_error 2 report Failed(conn) 3 continue 4 let _ = sink.poll_close 5 sink_state = None")
+    w("   6 report Ready 7 msg.take().expect 8 self.msg = Some(msg) 9 timeout = None 10 report Sending(now, conn) 11 return Pending 12 return open_new_substream")
+    w("   13 timeout.take() 14 self.msg.take() 15 halted = true 99 unknown.  Item (0, [c]) = statement c; (k, cs) = `if <cond k> { cs }` with")
+    w("   k = 20 ready!(poll_flush).is_err() 21 ready!(poll_ready).is_err() 22 start_send(&msg).is_err() 23 delay.poll(cx).is_ready() 98 unknown *)")
+    w(f"Definition hpoll_prelude : N := {hprelude}.  (* 0 = queued event first, then `if halted return Pending`, then the timeout block *)")
+    w(f"Definition hpoll_timeout : list (N * list N) := {items_coq(tmo)}.")
+    w("(* (msg pattern 0 None 1 Some 9 _, sink pattern 0 None 1 Requested 2 Ready(sink) 9 _, body) in source order *)")
+    w("Definition hpoll_arms : list (N * N * list (N * list N)) := [" + "; ".join(f"({a}, {b}, {items_coq(c)})" for a, b, c in arms) + "].")
+    w("")
+
+    # ---- server.rs : ServerConnectionHandler::poll_outgoing — the arms of the match on (pending_outgoing_messages, sink)
+    sm = re.search(r"fn\s+poll_outgoing\s*\(", srv)
+    if not sm:
+        die("ServerConnectionHandler::poll_outgoing not found")
+    sbody, _ = brace_block(srv, srv.index("{", srv.index("->", sm.end())))
+    slm = re.search(r"loop\s*\{", sbody)
+    if not slm or sbody[:slm.start()].strip() != "":
+        die("poll_outgoing: loop not found at the top")
+    sloop, sloop_end = brace_block(sbody, slm.end() - 1)
+    if sbody[sloop_end:].strip() != "":
+        die("poll_outgoing: code after the loop")
+    smm = re.search(r"match\s*\(&mut self\.pending_outgoing_messages,\s*&mut self\.sink\)\s*\{", sloop)
+    if not smm or sloop[:smm.start()].strip() != "":
+        die("poll_outgoing: match on (pending_outgoing_messages, sink) not found at the top of the loop")
+    sarms_txt, sarms_end = brace_block(sloop, smm.end() - 1)
+    if sloop[sarms_end:].strip() != "":
+        die("poll_outgoing: code after the match")
+    smpat = {"None": 0, "Some(_)": 1, "pending_messages@Some(_)": 1, "_": 9}
+    sarms = []
+    i = 0
+    while True:
+        am3 = re.compile(r"\s*\(([^,()]*(?:\([^()]*\))?[^,()]*),\s*([^()]*(?:\([^()]*\))?)\)\s*=>\s*").match(sarms_txt, i)
+        if not am3:
+            if sarms_txt[i:].strip() != "":
+                die("poll_outgoing: cannot parse arm at: " + sarms_txt[i:i + 60])
+            break
+        mp = smpat.get(re.sub(r"\s+", "", am3.group(1)), 99)
+        sp = spat.get(re.sub(r"\s+", "", am3.group(2)), 99)
+        j = am3.end()
+        if sarms_txt[j] == "{":
+            inner, k = brace_block(sarms_txt, j)
+            items = parse_hbody(inner)
+            i = k
+            if sarms_txt[i:].lstrip().startswith(","):
+                i = sarms_txt.index(",", i) + 1
+        else:
+            k = sarms_txt.index(",", j)
+            items = [(0, [hstmt_code(sarms_txt[j:k])])]
+            i = k + 1
+        sarms.append((mp, sp, items))
+    w("(* ServerConnectionHandler::poll_outgoing: same language; further codes 30 let mut messages = pending_messages.take().expect 31 let remaining =")
+    w("   messages.split_off(blocks_fitting_in_message(&messages)) 33 *pending_messages = Some(remaining) 34 let message = Message { payload: messages, .. };")
+    w("   conditions 24 !remaining.is_empty() 25 sink.start_send_unpin(&message).is_err() *)")
+    w("Definition shpoll_arms : list (N * N * list (N * list N)) := [" + "; ".join(f"({a}, {b}, {items_coq(c)})" for a, b, c in sarms) + "].")
     w("")
 
     # ---- server.rs : PeerWantlist::process_wantlist / wantlist_replace (cap, order of cancels and additions)
